@@ -11,7 +11,7 @@ CLAIMED = {
    note="Trusted: reference AD + closed forms in c12.rs (independent of rateslib's layout), tolerance model, the verif-hooks re-export of the crate-private Curve. Not covered: curves with nodes of mixed number kinds (tagging of those is not stated by the property).",
    technique="deterministic simulation: exhaustive-to-depth set_ad_order histories on seeded curves vs reference model"),
  "C16": dict(level="exploration", design="DESIGN.md §4 C16",
-   text="Twin-run crash/restart simulation: for seeded lives of every serialisable type (Dual/Dual2 with a storage-sharing partner, Cal, UnionCal, NamedCal, CurveDF x 5 rules, the Python-facing Curve with all three calendar kinds, FXRates under the C10 history alphabet, PPSpline f64/Dual/Dual2 unsolved/solved/re-solved) one twin is crashed and restarted from its durable bytes (JSON, tagged JSON, bincode) at seeded points, including right after construction, after refused operations and back-to-back; it must load, compare == to the twin that never restarted, answer the whole query suite bit-identically, re-save to the same bytes, and stay in lock-step afterwards. Contents are dominated by uniformly random finite bit patterns. Sampling, not proof.",
+   text="Twin-run crash/restart simulation: for seeded lives of every serialisable type (Dual/Dual2 with a storage-sharing partner, Cal, UnionCal, NamedCal, CurveDF x 5 rules, the Python-facing Curve with all three calendar kinds, FXRates under the C10 history alphabet, PPSpline f64/Dual/Dual2 unsolved/solved/re-solved) one twin is crashed and restarted from its durable bytes (JSON, tagged JSON, bincode, and Python's pickle driven in an embedded interpreter) at seeded points, including right after construction, after refused operations and back-to-back; it must load, compare == to the twin that never restarted, answer the whole query suite bit-identically, re-save to the same bytes, and stay in lock-step afterwards. Contents are dominated by uniformly random finite bit patterns. Sampling, not proof.",
    note="Trusted: the never-restarted twin as oracle (so a defect that corrupts both twins identically is invisible here), serde_json/bincode themselves. Assumes finite contents, distinct variable names, a working weekday. FX markets are compared after set_ad_order(One) on the original, rates within 64 eps before that, as the property words it.",
    technique="deterministic simulation: seeded crash/restart from durable bytes at arbitrary life points, twin-run oracle"),
  "C20": dict(level="fault_enumeration", design="DESIGN.md §4 C20",
